@@ -136,6 +136,12 @@ fn one_site<K: SimKey>(case: &Case, site: u64, errno: i32, sseed: u64, op_ranges
     let base = fresh_dir();
     let mut sim = Sim::new(&base, 11);
     sim.mon.cas_immutable = true;
+    // the on-disk well-formedness rules that do not depend on knowing the acknowledged state
+    // (complete records, version order / ranges / no reuse across restarts, snapshot monotone)
+    // keep holding after a failed call; a violation is C20's (foreign to a C14 run, own in C20's
+    // fault-injecting run class)
+    sim.mon.wal_wellformed = true;
+    sim.mon.tolerate_torn_tail = true;
     sim.mon.own = case.property.clone();
     sim.mon.n = wl.cfg.n;
     sim.plan.fail_at = Some(site);
@@ -223,7 +229,10 @@ fn one_site<K: SimKey>(case: &Case, site: u64, errno: i32, sseed: u64, op_ranges
         let nc = w.contents.len();
         for j in 0..n_more {
             let k = rng.below(nk as u64) as usize;
-            let op = match rng.below(8) {
+            // an explicit checkpoint directly after the failed call (its target is whatever version
+            // the failed operation consumed) is the interesting neighbour: bias towards it
+            let first_ckpt = j == 0 && rng.chance(1, 3);
+            let op = match if first_ckpt { 5 } else { rng.below(8) } {
                 0..=2 => {
                     let c = rng.below(nc as u64) as usize;
                     Op::Put { k, c, chunks: vec![w.contents[c].len()], abort: false }
@@ -272,6 +281,25 @@ fn one_site<K: SimKey>(case: &Case, site: u64, errno: i32, sseed: u64, op_ranges
             }
         }
         if let Err(f) = tolerant_audit(&w, &poss, wl.ops.len() + 12, &tag) {
+            result = Some(f);
+            break 'run;
+        }
+        // ---- operations issued after the first restart are themselves preserved by a second one ----
+        w.readers.clear();
+        w.close();
+        match catch_unwind(AssertUnwindSafe(|| w.open_raw(&cfg))) {
+            Err(p) => {
+                result = vio("panic", wl.ops.len() + 13, format!("second reopen panicked: {}", panic_msg(p)));
+                break 'run;
+            }
+            Ok(Err(e)) => {
+                result = vio("reopen-failed", wl.ops.len() + 13, format!("the second clean reopen after the failed call at {:?} fails: {e} ({e:?})", fired()));
+                break 'run;
+            }
+            Ok(Ok(())) => {}
+        }
+        if let Err(mut f) = tolerant_audit(&w, &poss, wl.ops.len() + 14, &tag) {
+            f.message = format!("{} (after the second restart)", f.message);
             result = Some(f);
         }
     }
